@@ -4,8 +4,8 @@
 //
 // One real StorageEngine, two knowledge graphs, relations `b_c`, `c`; every history is run twice: with the graph names
 // `a`, `ab`, and with the adversarially similar names `a`, `a_b` (the shards `a:b_c` and `a_b:c` differ only in where the
-// separator stands).  Every history of length <= 3 (thorough
-// 4) over 11 steps — create a / a_b, drop a / a_b, insert into a:b_c, a_b:c, a:c, register a rule in a, save all,
+// separator stands).  Every history of length <= 3 (thorough:
+// + every 5th of length 4) over 11 steps — create a / a_b, drop a / a_b, insert into a:b_c, a_b:c, a:c, register a rule in a, save all,
 // restart (drop the engine, reopen the same directory) — is compared after every step with the model
 // graph -> (relation -> set of tuples, rule names):
 //   * the non-empty graphs listed by list_knowledge_graphs() are the model's non-empty graphs,
@@ -140,7 +140,8 @@ fn verif_witness() {
     rec(&mut Vec::new(), max_len, &mut hs);
     let mut cases = 0usize;
     let mut seen: std::collections::BTreeSet<String> = Default::default();
-    for suffix in &hs {
+    for (hi, suffix) in hs.iter().enumerate() {
+        if suffix.len() == 4 && hi % 5 != 0 { continue; }   // thorough: every 5th history of length 4
         let mut h = vec![KOp::CreateA, KOp::CreateB];
         h.extend_from_slice(suffix);
         h.push(KOp::Restart);   // and every history ends with a restart: nothing reappears, nothing is lost
